@@ -5,9 +5,13 @@ NOTES = ("Machine-checked proof in Coq 8.16.1 on hand-written executable models;
          "See DESIGN.md.")
 
 ALL = ["C%02d" % i for i in range(1, 21)]
+# properties whose machinery has been completed and verified by the orchestrator
+READY = [l.strip() for l in open(os.path.join(os.path.dirname(os.path.abspath(__file__)), "ready.list")) if l.strip()]
 CHECKS, ENGINES = {}, []
 _seen = {}
 for _f in sorted(glob.glob(os.path.join(os.path.dirname(os.path.abspath(__file__)), "manifest.d", "C*.py"))):
+    if os.path.basename(_f)[:-3] not in READY:
+        continue
     _m = runpy.run_path(_f)
     CHECKS[os.path.basename(_f)[:-3]] = _m["CHECK"]
     _e = _m.get("ENGINE")
